@@ -442,7 +442,11 @@ where
     }
 
     pub(crate) fn insert_with_hash(&self, key: Arc<K>, hash: u64, value: V) {
+        #[cfg(mini_moka_verif)]
+        crate::verif::sp("ins.begin");
         let (op, now) = self.base.do_insert_with_hash(key, hash, value);
+        #[cfg(mini_moka_verif)]
+        crate::verif::sp("ins.mapped");
         let hk = self.base.housekeeper.as_ref();
         Self::schedule_write_op(
             self.base.inner.as_ref(),
@@ -463,7 +467,13 @@ where
         Arc<K>: Borrow<Q>,
         Q: Hash + Eq + ?Sized,
     {
+        #[cfg(mini_moka_verif)]
+        crate::verif::sp("inv.begin");
+        #[cfg(mini_moka_verif)]
+        crate::verif::block_until("inv.shard", &|| self.base.inner.verif_shard_free(key));
         if let Some(kv) = self.base.remove_entry(key) {
+            #[cfg(mini_moka_verif)]
+            crate::verif::sp("inv.mapped");
             let op = WriteOp::Remove(kv);
             let now = self.base.current_time_from_expiration_clock();
             let hk = self.base.housekeeper.as_ref();
@@ -544,6 +554,8 @@ where
     S: BuildHasher + Clone + Send + Sync + 'static,
 {
     fn sync(&self) {
+        #[cfg(mini_moka_verif)]
+        crate::verif::sp("sync.explicit");
         self.base.inner.sync(MAX_SYNC_REPEATS);
     }
 }
@@ -585,11 +597,17 @@ where
         // - We are doing a busy-loop here. We were originally calling `ch.send(op)?`,
         //   but we got a notable performance degradation.
         loop {
+            #[cfg(mini_moka_verif)]
+            crate::verif::sp("wr.loop");
             BaseCache::<K, V, S>::apply_reads_writes_if_needed(inner, ch, now, housekeeper);
+            #[cfg(mini_moka_verif)]
+            crate::verif::sp("wr.send");
             match ch.try_send(op) {
                 Ok(()) => break,
                 Err(TrySendError::Full(op1)) => {
                     op = op1;
+                    #[cfg(mini_moka_verif)]
+                    crate::verif::yield_spin("wr.full");
                     std::thread::sleep(Duration::from_micros(WRITE_RETRY_INTERVAL_MICROS));
                 }
                 Err(e @ TrySendError::Disconnected(_)) => return Err(e),
